@@ -51,7 +51,7 @@ Definition flush (s : lp) (cases : list ptest) : lp :=
 
 Definition end_testcase (s : lp) (index : nat) : lres lp :=
   match lp_cmd s with
-  | [] => match lp_exps s with [] => LOk s | _ => LErr end
+  | [] => match lp_exps s, lp_code s with [], None => LOk s | _, _ => LErr end     (* expectations or an exit code without a command *)
   | _ =>
     let tc := mkPT (match lp_title s with Some t => t | None => [] end) (lp_cmd s) (lp_exps s) (lp_code s)
                    (S (match lp_start s with Some i => i | None => index end)) in
@@ -94,7 +94,7 @@ Definition add_body (multi : bool) (s : lp) (line : text) (index : nat) : lres l
 
 Definition set_title (s : lp) (t : text) : lp :=
   mkLP (Some t) (lp_cmd s) (lp_exps s) (lp_code s) (lp_in_command s) (lp_start s) (lp_cases s).
-Definition has_body (s : lp) : bool := match lp_cmd s, lp_exps s with [], [] => false | _, _ => true end.
+Definition has_body (s : lp) : bool := match lp_cmd s, lp_exps s, lp_code s with [], [], None => false | _, _, _ => true end.
 
 (* ---------- CramParser::parse ---------- *)
 Definition INDENT : text := [32; 32].
